@@ -182,9 +182,138 @@ def cleanup():
     _expect(sys.gettrace() is None and threading.gettrace() is None, "trace function left installed")
 
 
+def import_time_primitives():
+    """real primitives inside class-/module-level reactivex objects created at import are swapped in place and
+    restored; a real primitive that a controlled thread blocks on is reported fast instead of hanging"""
+    import threading as real
+
+    from reactivex.disposable import Disposable, SerialDisposable
+    from reactivex.scheduler import trampoline as tmod
+
+    det.unpatch_modules()  # build "import-time" objects with the real names
+    try:
+        tramp = tmod.Trampoline()
+        _expect(type(tramp._lock) is type(real.Lock()), "expected a real lock outside patched()")
+        tmod.Trampoline._selftest_shared = tramp  # class-level instance holding Lock + Condition(Lock)
+        tmod._selftest_holder = [tramp]  # module-level container is not a reactivex instance: left alone
+        stale = SerialDisposable()  # an object under test built before patching
+        real_lock, real_cond = tramp._lock, tramp._condition
+        det._scan_cache = None
+        with det.patched() as env:
+            _expect(not det.audit_object(tramp), f"import-time object still has real primitives: {det.audit_object(tramp)}")
+            _expect(tramp._condition._lock is tramp._lock, "a swapped Condition must share the stand-in of its lock")
+            _expect(any("_selftest_shared" in p for p in env.report["inside"]), f"report: {env.report['inside']}")
+            out = []
+
+            def user(tag):
+                def f():
+                    from reactivex.scheduler.scheduleditem import ScheduledItem
+                    from reactivex.scheduler import CurrentThreadScheduler
+
+                    s = CurrentThreadScheduler()
+                    tramp.run(ScheduledItem(s, None, lambda sc, st: out.append(tag) or Disposable(), s.now + s.to_timedelta(1.0)))
+
+                return f
+
+            for sched, res, _ in det.explore(lambda: (out.clear() or [user("a"), user("b")], None), K=1, max_steps=3000):
+                _expect(res.complete and sorted(out) == ["a", "b"], f"shared import-time trampoline: {out} {res.describe()}")
+            # a stale object: fast, explicit failure
+            try:
+                det.audit(stale)
+            except HarnessError as e:
+                _expect("real threading primitives" in str(e), str(e))
+            else:
+                raise HarnessError("det.audit() accepted an object built before patching")
+
+            def holder():
+                with stale.lock:
+                    det.yield_point("holding")
+                    det.yield_point("holding")
+
+            def taker():
+                stale.dispose()
+
+            import time
+
+            t0 = time.monotonic()
+            try:
+                det.run_program([holder, taker], [[2, 1]], stall_timeout=1.0)
+            except HarnessError as e:
+                _expect("REAL threading primitives" in str(e) and "lock" in str(e), f"stall diagnosis: {e}")
+                _expect(time.monotonic() - t0 < 10, "stall detection too slow")
+            else:
+                raise HarnessError("a controlled thread blocked on a real lock went unnoticed")
+            try:
+                det.run_program([holder, taker], audit=True)
+            except HarnessError as e:
+                _expect("real threading primitives" in str(e), str(e))
+            else:
+                raise HarnessError("audit=True accepted thread callables that reach real primitives")
+        _expect(tramp._lock is real_lock and tramp._condition is real_cond, "in-place swaps must be undone by unpatch")
+    finally:
+        for o, n in ((tmod.Trampoline, "_selftest_shared"), (tmod, "_selftest_holder")):
+            if hasattr(o, n):
+                delattr(o, n)
+        det._scan_cache = None
+        det.patch_modules()  # run() unpatches
+
+
+def lazy_imports_and_thread_state():
+    import gc
+
+    import reactivex
+    from reactivex import operators as ops
+    from reactivex.scheduler import CurrentThreadScheduler
+
+    lazy = [n for n in ("reactivex.operators._timeout", "reactivex.operators._delay", "reactivex.observable.interval", "reactivex.observable.timer") if n in sys.modules]
+    _expect(len(lazy) == 4, f"patch_modules must import lazily imported submodules up front: {lazy}")
+    import reactivex.observable.combinelatest as cl
+
+    _expect(cl.RLock is det.CRLock, "a lazily imported module must see the cooperative names")
+    seen = []
+
+    def factory():
+        def prog():
+            seen.append(gc.isenabled())
+            s = CurrentThreadScheduler.singleton()
+            s.schedule(lambda sc, st: det.log("ran", object()))  # payload repr carries an address
+            reactivex.of(1, 2).pipe(ops.map(lambda x: x + 1)).subscribe(lambda v: det.log("v", v))
+
+        return [prog, prog], None
+
+    gc_before = gc.isenabled()
+    for _ in range(3):  # pooled OS threads: the singleton/trampoline of an earlier run must not be reused
+        det.run_checked(factory, [[5, 1]], reuse_threads=True)
+    _expect(not any(seen), "cyclic GC must be off during a run")
+    _expect(gc.isenabled() == gc_before, "GC state must be restored")
+    c = det.clock_us()
+    det.set_clock_us(c + 5)
+    _expect(det.clock_us() == c + 5 and not det.aborting(), "clock accessors / aborting()")
+
+
+def drawn_descent():
+    from reactivex.disposable import SingleAssignmentDisposable, Disposable
+
+    def factory():
+        d = SingleAssignmentDisposable()
+        return [lambda: setattr(d, "disposable", Disposable()), d.dispose], d
+
+    full = [s for s, _, _ in det.explore(factory, K=1, reuse_threads=True)]
+    parts = [s for i in range(3) for s, _, _ in det.explore(factory, K=1, slice_=(i, 3), reuse_threads=True) if s]
+    _expect(sorted(parts) == sorted(s for s in full if s), "slices of the first level must partition it")
+    runs = list(det.walk(factory, [7, 3], reuse_threads=True))
+    _expect(len(runs) == 3 and [len(s) for s, _, _ in runs] == [0, 1, 2], f"walk: {[s for s, _, _ in runs]}")
+    for (s, r, _), (s2, r2, _) in zip(runs, runs[1:]):
+        _expect(r.owners != r2.owners, "every drawn preemption of walk() must be effective")
+    base = runs[0][1]
+    eff = det.resolve_schedule([[11, 1], [40, 0]], base, effective=True)
+    _expect(eff and all(e in det.next_preemptions(base) for e in eff), f"effective resolution: {eff}")
+
+
 SCENARIOS = {
     f.__name__: f
-    for f in (deadlock, timers, eventloop, budget_and_exceptions, periodic_and_pool, current_thread_and_free_mode, granularity_and_determinism, cleanup)
+    for f in (deadlock, timers, eventloop, budget_and_exceptions, periodic_and_pool, current_thread_and_free_mode, granularity_and_determinism, cleanup,
+              import_time_primitives, lazy_imports_and_thread_state, drawn_descent)
 }
 
 
